@@ -42,6 +42,9 @@ func choose(n int, label string) (int, bool) {
 }
 
 func Intn(n int) int {
+	if n <= 0 {
+		panic("invalid argument to Intn")
+	}
 	if v, ok := choose(n, "rand.Intn"); ok {
 		return v
 	}
